@@ -54,22 +54,30 @@ type Node struct {
 
 	Links map[netip.Addr]*VLink
 	Net   *Net
+	// Gate sees the instance accessor calls of this node's modules.
+	Gate *Gate
 }
 
 // The instance interfaces of the modules (satisfied structurally).
 
-func (n *Node) Version() string               { return "v0.0.0-verif" }
-func (n *Node) Config() *config.Config        { return n.Cfg }
-func (n *Node) Identity() *m.Address          { return n.ID.Addr }
-func (n *Node) FrameBuilder() *frame.Builder  { return n.Builder }
-func (n *Node) State() *state.State           { return n.St }
-func (n *Node) NetStack() *netstack.NetStack  { return nil }
-func (n *Node) API() *httpapi.API             { return nil }
-func (n *Node) TunDevice() *tun.Device        { return n.Tun }
-func (n *Node) Switch() *switchr.Switch       { return n.Sw }
-func (n *Node) Peering() *peering.Peering     { return n.Peer }
-func (n *Node) RoutingTable() *m.RoutingTable { return n.Rtr.Table() }
-func (n *Node) IP() netip.Addr                { return n.ID.Addr.IP }
+// (The accessors the modules use while they hold their locks are schedule
+// points of the node's gate, see Gate; an unarmed gate lets everything pass.)
+
+func (n *Node) Version() string              { return "v0.0.0-verif" }
+func (n *Node) Config() *config.Config       { n.Gate.Pass("instance.Config"); return n.Cfg }
+func (n *Node) Identity() *m.Address         { n.Gate.Pass("instance.Identity"); return n.ID.Addr }
+func (n *Node) FrameBuilder() *frame.Builder { return n.Builder }
+func (n *Node) State() *state.State          { n.Gate.Pass("instance.State"); return n.St }
+func (n *Node) NetStack() *netstack.NetStack { return nil }
+func (n *Node) API() *httpapi.API            { return nil }
+func (n *Node) TunDevice() *tun.Device       { return n.Tun }
+func (n *Node) Switch() *switchr.Switch      { n.Gate.Pass("instance.Switch"); return n.Sw }
+func (n *Node) Peering() *peering.Peering    { n.Gate.Pass("instance.Peering"); return n.Peer }
+func (n *Node) RoutingTable() *m.RoutingTable {
+	n.Gate.Pass("instance.RoutingTable")
+	return n.Rtr.Table()
+}
+func (n *Node) IP() netip.Addr { return n.ID.Addr.IP }
 
 // NodeOpts configures a node.
 type NodeOpts struct {
@@ -153,6 +161,7 @@ func (vn *Net) AddNode(name string, id *ids.Identity, opts NodeOpts) (*Node, err
 		SwitchIn: make(chan frame.Frame, 4096),
 		Links:    map[netip.Addr]*VLink{},
 		Net:      vn,
+		Gate:     &Gate{},
 	}
 	n.Builder.SetFrameMargins(peering.FrameOffset, peering.FrameOverhead)
 	n.St = state.New(n, n.Store)
